@@ -126,11 +126,20 @@ fn check(defs: Vec<Instruction>, body: Vec<Instruction>, ctx: &Ctx, out: &mut Ou
             eprintln!("case: {text}");
         }
         let (program, set) = build(&defs, &body);
+        crate::model::cal::THRESHOLD_SENSITIVE.with(|f| f.set(false));
         let model = model_expand(&set, &body);
+        let threshold_sensitive = crate::model::cal::THRESHOLD_SENSITIVE.with(|f| f.get());
         if std::env::var("QV_DEBUG").is_ok() {
             eprintln!("model done: {}", match &model { Ok(_) => "finite", Err(ExpandError::Recursive(_)) => "recursive", Err(ExpandError::Unbounded) => "unbounded" });
         }
         let result = lib(|| program.expand_calibrations())?;
+        if threshold_sensitive {
+            // the library returned (that much is required of every program); what it returned
+            // depends on where the simplifier's 1e-10 folding cuts a shrinking parameter
+            out.class("near-threshold-parameter");
+            out.skip = Some("near-threshold-parameter");
+            return Ok(());
+        }
         match model {
             Ok(m) => {
                 out.class("finite");
